@@ -30,7 +30,7 @@ from rv import gen
 
 ID = "C10"
 LEVEL = "exploration"
-RULE = ("per element configuration (17 configurations of the 10 selective elements): A = "
+RULE = ("per element configuration (18 configurations of the 10 selective elements): A = "
         "ordered selection of 0..2 (quick) / 0..3 (thorough) values from the element's pool "
         "of selected values, B = ordered selection of 1..2 (quick) / 1..3 (thorough; size 3 "
         "sampled by seed) from the element's pool of unselected values (bare numbers, None, "
@@ -133,6 +133,15 @@ def _small_bin(b):
     return isinstance(d, int) and not isinstance(d, bool) and d < 10
 
 
+def _last_bin(struct):
+    """A user's get_example_bin: the LAST bin of a 1-d histogram / array of bins."""
+    import lena.structures
+    bins = struct.bins if isinstance(struct, lena.structures.histogram) else struct
+    while isinstance(bins, list):
+        bins = bins[-1]
+    return bins
+
+
 def _hist_of_small_hists(b):
     import lena.structures
     d = b[0] if (isinstance(b, tuple) and len(b) == 2 and isinstance(b[1], dict)) else b
@@ -172,6 +181,11 @@ def _histhist(ctx_in_bins=False):
 def _graph():
     import lena.structures
     return lena.structures.graph([[0, 1], [2, 3]])
+
+
+def _mixed_hist(bins):
+    import lena.structures
+    return lena.structures.histogram([0, 1, 2], list(bins))
 
 
 def _histhist_big():
@@ -240,6 +254,12 @@ SPECIFIC = {
     "num_newdir": lambda env: (5, {"output": {"filename": "n", "dirname": "nd3"}}),
     "pair_template_key": lambda env: (7, {"output": {"template": "missing.tex",
                                                      "filetype": "txt"}}),
+    # first bin int, last bin float (and the reverse): which one decides is the element's
+    # get_example_bin option
+    "hist_int_float": lambda env: _mixed_hist([3, 4.5]),
+    "hist_int_float_pair": lambda env: (_mixed_hist([7, 0.5]), {"variable": {"name": "m"}}),
+    "A_hist_float_int": lambda env: _mixed_hist([3.5, 4]),
+    "A_hist_float_int_pair": lambda env: (_mixed_hist([1.5, 6]), {"plot": {"name": "m"}}),
     "hist_big": lambda env: _hist1(50),
     "hist_big_pair": lambda env: (_hist1(60), {"variable": {"name": "y"}}),
     "histhist_big": lambda env: _histhist_big(),
@@ -350,6 +370,10 @@ CONFIGS = {
     "MapBins_pred": (["A_hist", "A_hist_pair"],
                      ["int", "pair_unrelated", "foreign", "hist_big", "hist_big_pair",
                       "hist_float", "A_histhist"], []),
+    # the "arbitrary bin" tested by select_bins is chosen by the user's get_example_bin
+    "MapBins_example": (["A_hist", "A_hist_float_int", "A_hist_float_int_pair"],
+                        ["int", "pair_unrelated", "hist_float", "hist_int_float",
+                         "hist_int_float_pair", "graph_pair"], []),
     "IterateBins_pred": (["A_histhist", "A_histhist_pair"],
                          ["int", "pair_unrelated", "hist", "histhist_big", "graph_pair"], []),
     "IterateBins": (["A_histhist", "A_histhist_pair", "A_histhist2"],
@@ -405,6 +429,8 @@ def build_element(name, env):
         return lena.structures.MapBins(_double, select_bins=int)
     if name == "MapBins_pred":
         return lena.structures.MapBins(_double, select_bins=_small_bin)
+    if name == "MapBins_example":
+        return lena.structures.MapBins(_double, select_bins=int, get_example_bin=_last_bin)
     if name == "IterateBins_pred":
         return lena.structures.IterateBins(select_bins=_hist_of_small_hists)
     if name == "IterateBins":
